@@ -69,6 +69,18 @@ Theorem C16_pool_release_after_error_refuted :
   requests false [w_bad; w_good] [] = [None; Some [10]] /\ expected w_good = Some [11].
 Proof. exact release_after_error_refuted. Qed.
 
+(* Restarts (Converter.Reset / ResetConverter increment the epoch and empty the cache): a conversion that was started in
+   an older epoch is not stored -- releaseProcess reports the stale process and Converter.Data returns an error. *)
+Theorem C16_answer_of_an_older_epoch_is_never_stored :
+  forall id ans k s, store_current s -> store_current (convert true id ans k s).
+Proof. exact convert_store_current. Qed.
+
+(* ignoring the result of releaseProcess (seeded change C16-r6a-n2): after one restart the old answer is in the store *)
+Theorem C16_ignored_release_result_refuted :
+  store (convert false 0 (answer w_good) 1 (mkC 0 [] [])) = [(0, 0, [11])] /\
+  epoch (convert false 0 (answer w_good) 1 (mkC 0 [] [])) = 1.
+Proof. exact ignore_release_result_refuted. Qed.
+
 (* Detaching: detachConverterFromTag removes the tag's own streams from the converter's queue; a stream stays queued
    only if another tag that keeps the converter matches it.  This is the whole statement, by design of the code; the
    harness checks it right after every set-converter / delete-tag action (also while a converter job is in flight). *)
